@@ -54,10 +54,6 @@ def run(ctx):
     ti = vr.methods.get("to_ical")
     if ti is None:
         raise AnalysisError("anchor vanished: vRecur.to_ical")
-    # ---- RECUR-MODEL: the codec interpreted on rules of every part ----------------
-    from .. import recurmodel
-    recurmodel.report(ctx, "C19/RECUR-MODEL", ti.loc())
-
     # ---- TYPES -------------------------------------------------------------
     types = m.class_const(vr, "types")
     if not isinstance(types, dict) or len(types) < 16:
@@ -124,6 +120,10 @@ def run(ctx):
               vs.loc(), detail="OMIT/BACKWARD/FORWARD")
     ctx.floor("C19/TYPES", 16)
     ctx.floor("C19/ORDER", 16)
+    # ---- RECUR-MODEL: the codec interpreted on rules of every part (last: a table
+    # violation found above is reported even when the interpretation gives up) ----
+    from .. import recurmodel
+    recurmodel.report(ctx, "C19/RECUR-MODEL", ti.loc())
 
 
 def _writer_delims(ctx, ti):
